@@ -299,7 +299,7 @@ def run_sweeps(vlib, impl, model, sweeps, max_explicit=12):
     returns ((evaluations, nontrivial), explicit_mismatch_cases)"""
     pending = []
     for tok, start, n, step in sweeps:
-        parts = 16 if n > 4096 else 1
+        parts = 64 if n > 400000 else 16 if n > 4096 else 1
         per = (n + parts - 1) // parts
         k = 0
         while k < n:
@@ -312,8 +312,9 @@ def run_sweeps(vlib, impl, model, sweeps, max_explicit=12):
     first = True
     while pending:
         lines = [sweep_line(*x) for x in pending]
-        oi = [canon(x) for x in vlib.run_driver(impl, lines, chunk=1 if len(lines) <= 256 else None)]
-        om = vlib.run_driver(model, lines, chunk=1 if len(lines) <= 256 else None)
+        # one sweep line per job: the lines differ in cost by orders of magnitude
+        oi = [canon(x) for x in vlib.run_driver(impl, lines, chunk=1)]
+        om = vlib.run_driver(model, lines, chunk=1)
         if first:
             for y in om:
                 f = y.split(" ")
